@@ -177,7 +177,15 @@ namespace TAO_PEGTL_NAMESPACE
             std::terminate();
 #endif
          }
-         m_end += m_reader( m_end, ( std::min )( buffer_free_after_end(), ( std::max )( amount - buffer_occupied(), Chunk ) ) );
+         // A reader may return fewer bytes than requested without being at the end, keep reading until
+         // the requested amount is available or the reader signals the end of the data by returning 0.
+         while( m_current.data + amount > m_end ) {
+            const std::size_t n = m_reader( m_end, ( std::min )( buffer_free_after_end(), ( std::max )( amount - buffer_occupied(), Chunk ) ) );
+            if( n == 0 ) {
+               break;
+            }
+            m_end += n;
+         }
       }
 
       template< rewind_mode M >
